@@ -300,7 +300,11 @@ def jacimpl_case(ctx, S, rng, kmax, k_fixed=None):
     replay = {"kind": "jacobian-algorithm", "parity": parity, "reduced": red, "cayley_u": str(u)}
     mo = d.ask("sym.jacimpl %d %s %s %s" % (parity, pairs2, rs(ct), rs(st)))
     m = pl(mo)
-    tol = Fraction(1, 10 ** 10) * (k + 1)
+    # proved part of the tolerance (C12e.rat_value_err / rat_col_err): the model run at the binary64 values of cos 2phi, sin 2phi
+    # (each within 2^-50 of the true ones) is within jacImplErr k 2^-50 of Im<0|U|0> / its true partial derivatives; the rest
+    # (1e-12 per factor) is for the rounding of the code's own ~6k floating-point operations per entry
+    tol = Fraction(1, 10 ** 12) * (k + 1) + pr(d.ask("sym.jacimplerr %d %s" % (k, rs(Fraction(1, 2 ** 50)))))
+    ctx.extra["components_tolerance_at_k=%d" % k] = core.fl(tol) if k in (1, 12, 40) else ctx.extra.get("components_tolerance_at_k=%d" % k, core.fl(tol))
     if len(m) != k + 1 or len(y) != k + 1:
         ctx.violation("c12:jacobian-components-shape", "gen_poly_jacobian_components returns %d numbers for %d reduced phases (model %d)" % (len(y), k, len(m)), replay)
         return
@@ -333,7 +337,7 @@ def jacimpl_case(ctx, S, rng, kmax, k_fixed=None):
 
 
 def run(tier, seed):
-    ctx = core.Ctx(PROP, tier, seed, "proof", ["C12", "C12b", "C12c", "C12d", "C10", "C10b"])
+    ctx = core.Ctx(PROP, tier, seed, "proof", ["C12", "C12b", "C12c", "C12d", "C12e", "C10", "C10b"])
     ctx.axioms = core.audit(ctx.modules)
     import pyqsp.sym_qsp_opt as S
     q = tier == "quick"
